@@ -54,6 +54,12 @@
  *       after exit the live set equals the set in use (cached objects and a
  *       grown stack returned).
  *
+ * A call that reports failure (-1 / NULL) although no allocation was refused
+ * and nothing overflows is a violation "C12:<object>:op-failed:<operation>"
+ * (the edge is abandoned, the object freed), never an engine error: engine
+ * errors are left for states the harness itself could not have emitted, bad
+ * replay records, the harness's own tables and the non-vacuity guards.
+ *
  * Not covered: allocation failure (C14), storing NULL in a seqptrmap (DESIGN
  * §5), sizes beyond the caps, reclen other than 1/3/8.
  */
@@ -260,7 +266,7 @@ ea_edge(const uint8_t * s, size_t len, uint32_t op)
 	setcase(s, len, op);
 	if (o->kind == EA_INIT) {
 		LIB(EA = elasticarray_init(o->nrec, o->reclen));
-		if (EA == NULL) vf_engine_error("elasticarray_init failed");
+		if (EA == NULL) { fail("op-failed", "elasticarray_init(%zu, %zu) returned NULL although no allocation was refused", o->nrec, o->reclen); S.E.transitions++; return; }
 		if (!ea_check(EA, n, 0, 1)) ea_emit(EA, op, 1);
 		S.E.transitions++;
 		LIB(elasticarray_free(EA));
@@ -274,12 +280,12 @@ ea_edge(const uint8_t * s, size_t len, uint32_t op)
 		for (i = 0; i < n; i++) data[i] = g(size + i);
 		{ uint8_t * src = __real_malloc(n ? n : 1); memcpy(src, data, n);	/* exact-size source: an over-read is an ASan report */
 		  LIB(rc = elasticarray_append(EA, src, o->nrec, o->reclen)); __real_free(src); }
-		if (rc) vf_engine_error("elasticarray_append failed (no allocation failure is injected here)");
+		if (rc) { fail("op-failed", "elasticarray_append of %zu bytes to %zu bytes returned %d although no allocation was refused and nothing overflows", n, size, rc); S.E.transitions++; break; }
 		if (!ea_check(EA, size + n, size + n, 1)) ea_emit(EA, op, 0); else S.E.transitions++;
 		break;
 	case EA_RESIZE:
 		LIB(rc = elasticarray_resize(EA, o->nrec, o->reclen));
-		if (rc) vf_engine_error("elasticarray_resize failed");
+		if (rc) { fail("op-failed", "elasticarray_resize from %zu to %zu bytes returned %d although no allocation was refused and nothing overflows", size, n, rc); S.E.transitions++; break; }
 		if (!ea_check(EA, n, size, 1)) ea_emit(EA, op, 0); else S.E.transitions++;
 		break;
 	case EA_SHRINK: case EA_OVF_SHRINK:
@@ -289,7 +295,7 @@ ea_edge(const uint8_t * s, size_t len, uint32_t op)
 		break;
 	case EA_TRUNCATE:
 		LIB(rc = elasticarray_truncate(EA));
-		if (rc) vf_engine_error("elasticarray_truncate failed");
+		if (rc) { fail("op-failed", "elasticarray_truncate (size %zu, capacity %zu) returned %d although no allocation was refused", size, alloc, rc); S.E.transitions++; break; }
 		if (!ea_check(EA, size, size, 0)) {
 			if (verif_ea_alloc(EA) != size) { fail("spare", "truncate left capacity %zu for %zu bytes", verif_ea_alloc(EA), size); S.E.transitions++; }
 			else ea_emit(EA, op, 0);
@@ -298,7 +304,7 @@ ea_edge(const uint8_t * s, size_t len, uint32_t op)
 	case EA_EXPORTDUP: {
 		void * buf = (void *)(uintptr_t)0x5a5a; size_t nrec = (size_t)-3;
 		LIB(rc = elasticarray_exportdup(EA, &buf, &nrec, o->reclen));
-		if (rc) vf_engine_error("elasticarray_exportdup failed");
+		if (rc) { fail("op-failed", "elasticarray_exportdup of %zu bytes returned %d although no allocation was refused", size, rc); S.E.transitions++; break; }
 		if (nrec != size / o->reclen) fail("export", "exportdup reports %zu records of %zu bytes for %zu bytes", nrec, o->reclen, size);
 		else if (blk_size(buf) < 0 || (size_t)blk_size(buf) != size) fail("export", "exportdup block has %ld bytes for %zu bytes of contents", blk_size(buf), size);
 		else { for (i = 0; i < size; i++) if (((uint8_t *)buf)[i] != g(i)) { fail("export", "exportdup byte %zu is wrong", i); break; } }
@@ -309,7 +315,12 @@ ea_edge(const uint8_t * s, size_t len, uint32_t op)
 	case EA_EXPORT: {
 		void * buf = (void *)(uintptr_t)0x5a5a; size_t nrec = (size_t)-3;
 		LIB(rc = elasticarray_export(EA, &buf, &nrec, o->reclen));
-		if (rc) vf_engine_error("elasticarray_export failed");
+		if (rc) {
+			/* a failed export leaves the array to the caller; release it only if the structure is still a live block */
+			fail("op-failed", "elasticarray_export of %zu bytes returned %d although no allocation was refused", size, rc);
+			if (blk_find(EA) < 0) EA = NULL;
+			S.E.transitions++; break;
+		}
 		EA = NULL;	/* freed by export */
 		if (nrec != size / o->reclen) fail("export", "export reports %zu records of %zu bytes for %zu bytes", nrec, o->reclen, size);
 		else if (size && (blk_size(buf) < 0 || (size_t)blk_size(buf) != size)) fail("export", "exported block has %ld bytes for %zu bytes of contents", blk_size(buf), size);
@@ -406,7 +417,7 @@ eq_edge(const uint8_t * s, size_t len, uint32_t op)
 	struct elasticqueue * EQ; size_t R = (size_t)cur.reclen, mlen, p; int rc; uint8_t * rec;
 	setcase(s, len, op);
 	if (op == EQ_INIT) {
-		LIB(EQ = elasticqueue_init(R)); if (EQ == NULL) vf_engine_error("elasticqueue_init failed");
+		LIB(EQ = elasticqueue_init(R)); if (EQ == NULL) { fail("op-failed", "elasticqueue_init(%zu) returned NULL although no allocation was refused", R); S.E.transitions++; return; }
 		if (!eq_check(EQ, 0, 0)) eq_emit(EQ, op, 1);
 		S.E.transitions++;
 		LIB(elasticqueue_free(EQ));
@@ -427,8 +438,8 @@ eq_edge(const uint8_t * s, size_t len, uint32_t op)
 		} else
 		LIB(rc = elasticqueue_add(EQ, rec));
 		__real_free(rec);
-		if (rc) vf_engine_error("elasticqueue_add failed");
-		if (!eq_check(EQ, 0, mlen + 1)) eq_emit(EQ, op, 0); else S.E.transitions++;
+		if (rc) { if (!edge_failed) fail("op-failed", "elasticqueue_add to a queue of %zu records returned %d although no allocation was refused", mlen, rc); S.E.transitions++; }
+		else if (!eq_check(EQ, 0, mlen + 1)) eq_emit(EQ, op, 0); else S.E.transitions++;
 	} else {
 		LIB(elasticqueue_delete(EQ));
 		if (!eq_check(EQ, mlen ? 1 : 0, mlen ? mlen - 1 : 0)) eq_emit(EQ, op, 0); else S.E.transitions++;
@@ -538,7 +549,7 @@ sp_edge(const uint8_t * s, size_t len, uint32_t op)
 	struct seqptrmap * M; unsigned k = op >> 16, c = op & 0xffff; size_t mlen; unsigned long mbm; int64_t r;
 	setcase(s, len, op);
 	if (k == SP_INIT) {
-		LIB(M = seqptrmap_init()); if (M == NULL) vf_engine_error("seqptrmap_init failed");
+		LIB(M = seqptrmap_init()); if (M == NULL) { fail("op-failed", "seqptrmap_init returned NULL although no allocation was refused"); S.E.transitions++; return; }
 		sp_base = 0;
 		if (!sp_check(M, 0, 0) && sp_storage_ok(M)) sp_emit(M, op, 1);
 		S.E.transitions++;
@@ -558,8 +569,8 @@ sp_edge(const uint8_t * s, size_t len, uint32_t op)
 			}
 		} else
 		LIB(r = seqptrmap_add(M, &tags[mlen]));
-		if (r == -1) vf_engine_error("seqptrmap_add failed");
-		if (r != sp_base + (int64_t)mlen) fail("number", "add returned %lld, the next consecutive number is %lld", (long long)r, (long long)(sp_base + (int64_t)mlen));
+		if (r == -1) { if (!edge_failed) fail("op-failed", "seqptrmap_add returned -1 with %zu numbers issued although no allocation was refused", mlen); }
+		else if (r != sp_base + (int64_t)mlen) fail("number", "add returned %lld, the next consecutive number is %lld", (long long)r, (long long)(sp_base + (int64_t)mlen));
 		else { mbm |= 1ul << mlen; mlen++; }
 	} else {
 		int64_t i = sp_num(c);
@@ -676,7 +687,7 @@ mp_edge(const uint8_t * s, size_t len, uint32_t op)
 	case MP_MALLOC: {
 		struct obj * p;
 		LIB(p = mpool_t_malloc());
-		if (p == NULL) vf_engine_error("mpool malloc failed");
+		if (p == NULL) { fail("op-failed", "the pool's malloc returned NULL although no allocation was refused (%d objects cached, %d in use)", s[0], ninuse); break; }
 		for (i = 0; i < ninuse; i++) if (inuse[i] == p) { fail("handed-out-twice", "malloc returned object %d which is still in use", i); break; }
 		if (!edge_failed && blk_size(p) != (long)sizeof(struct obj)) fail("not-live", "malloc returned a pointer that is not a live allocation of the object size");
 		if (!edge_failed) { memset(p, 0x10 + ninuse, sizeof(struct obj)); inuse[ninuse++] = p; }
